@@ -1,19 +1,33 @@
 """CX5 coverage extension: unbounded safety of the small integer / finite-set shaped specifications by inductive invariants
-(Apalache, TLAPS), tied to the original modules by TLC.  Stage kind "ind" is lib/indstage.py."""
+(Apalache, TLAPS), tied to the original modules by TLC.  Stage kind "ind" is lib/indstage.py.
+
+Per module M (spec/ind/): MInd.tla typed companion (machine, the cfg's invariants verbatim, label-free action properties, IndInv),
+MIndApa.tla Apalache front end (symbolic constants: ConstInit, IndInit, probes), MIndProofs.tla TLAPS proofs for arbitrary
+constants, MIndRef.tla + MC_MIndRef_*.cfg the TLC tie to spec/M.tla on the bounded models (Fwd, Bwd, SameInv, SameAct)."""
 
 
-def _apa(mod, obligations, **kw):
-    return dict(kind="ind", name=f"{mod}-apalache", tool="apalache", module=f"{mod}IndApa", cinit="ConstInit", obligations=obligations, timeout=600, **kw)
+def _ob(name, init, inv, length, **kw):
+    return dict(name=name, init=init, inv=inv, length=length, **kw)
 
 
-def _ob(name, init, inv, length):
-    return dict(name=name, init=init, inv=inv, length=length)
+def _apa(mod, safety, steps, probes, extra=(), **kw):
+    """base case; induction step; IndInv => state invariants of the original cfg; IndInv /\\ Next => action properties; probes"""
+    obs = [_ob("init", "Init", "IndInv", 0), _ob("step", "IndInit", "IndInv", 1), _ob("safety", "IndInit", safety, 0)]
+    if steps:
+        obs.append(_ob("actprops", "IndInit", ",".join(steps), 1))
+    obs += list(extra)
+    obs += [_ob("probe-" + p, "IndInit", p, 0, expect="Error") for p in probes]
+    return dict(kind="ind", name=f"{mod}-apalache", tool="apalache", module=f"{mod}IndApa", cinit="ConstInit", obligations=obs, timeout=600, **kw)
 
 
-def _std(safety="Safety", steps=()):
-    """base case, induction step, IndInv => the state invariants of the original cfg, IndInv /\\ Next => each action property"""
-    return [_ob("init", "Init", "IndInv", 0), _ob("step", "IndInit", "IndInv", 1), _ob("safety", "IndInit", safety, 0)] + \
-           [_ob("act-" + s, "IndInit", s, 1) for s in steps]
+def _ref(mod, quick, thorough=None, **kw):
+    kw.setdefault("workers", 4)
+    return dict(kind="ind", name=f"{mod}-ref", tool="tlc", module=f"{mod}IndRef", cfg={"quick": quick, "thorough": thorough or quick},
+                timeout={"quick": 600, "thorough": 1500}, **kw)
+
+
+def _tlaps(mod, **kw):
+    return dict(kind="ind", name=f"{mod}-tlaps", tool="tlaps", module=f"{mod}IndProofs", timeout=600, **kw)
 
 
 PROP = dict(
@@ -22,12 +36,29 @@ PROP = dict(
               "sets of bounded cardinality) and TLAPS (arbitrary constants); TLC checks on the bounded models of the original cfgs that the companion's "
               "transition relation and properties are the original module's",
     design_ref="spec/ind/*.tla headers (to become a DESIGN.md section)",
-    level_text="see the module headers in spec/ind/",
-    level_note="A proof is about the companion module; the tie to the module the Go code is bound to is a TLC check on bounded models (Fwd, Bwd, SameInv, Same* in <M>IndRef.tla).",
-    assumptions=["Apalache: set-valued constants have at most the cardinality given to Gen in <M>IndApa.tla", "TLAPS: backends (Zenon, Isabelle, SMT) are sound"],
+    level_text="TTL (C32), Usage (C34), Deterministic (C10), Health (C30), Metrics (C33, atomic and fine grain): Init => IndInv, IndInv /\\ Next => IndInv', IndInv => every state invariant of the "
+               "module's MC_*.cfg, IndInv /\\ Next => every action property of the cfg; see the module headers in spec/ind/ for the invariants",
+    level_note="A proof is about the companion module; the tie to the module the Go code is bound to is a TLC check on bounded models (Fwd, Bwd, SameInv, SameAct "
+               "in <M>IndRef.tla).  Apalache: integers symbolic, set-valued constants at most the cardinality given to Gen in <M>IndApa.tla.  TLAPS: arbitrary "
+               "constants (state invariants and action properties of all five modules).  Not taken on: StressRelief, TraceBuffer.",
+    assumptions=["Apalache: set-valued constants have at most the cardinality given to Gen in <M>IndApa.tla", "TLAPS: backends (Zenon, Isabelle, Z3) are sound",
+                 "ConstOK of each companion (made explicit by the proofs; TLC checks it for every bounded cfg in SameInv)"],
     stages=[
-        dict(kind="ind", name="TTL-ref", tool="tlc", module="TTLIndRef", cfg=["MC_TTLIndRef_closed.cfg", "MC_TTLIndRef_open.cfg"], workers=4, timeout=300),
-        _apa("TTL", _std(steps=["NoResurrectionStep"])),
-        dict(kind="ind", name="TTL-tlaps", tool="tlaps", module="TTLIndProofs", timeout=600),
+        _ref("TTL", ["MC_TTLIndRef_closed.cfg", "MC_TTLIndRef_open.cfg"]),
+        _apa("TTL", "Safety", ["NoResurrectionStep"], ["ProbeClosed", "ProbeOpen"]),
+        _tlaps("TTL"),
+        _ref("Usage", ["MC_UsageIndRef_keys.cfg", "MC_UsageIndRef_never.cfg"]),
+        _apa("Usage", "Safety", ["DeliveredMonotoneStep", "OnlyAckDeliversStep", "OnlyAckClearsPendingStep", "PendingTwiceKeepsStep"], ["ProbeKeys", "ProbeNever"]),
+        _tlaps("Usage"),
+        _ref("Deterministic", ["MC_DeterministicIndRef_det.cfg", "MC_DeterministicIndRef_stress.cfg", "MC_DeterministicIndRef_arith.cfg"]),
+        _apa("Deterministic", "SafetyBasicPred", ["AskingIsPureStep", "ConfigureTakesEffectStep", "ConfigureIsLocalStep"], ["ProbeDet", "ProbeStress"],
+             extra=[_ob("arith", "IndInit", "NestedAnswers,ArithNestedAt,ArithNestedUp,ArithFraction", 0)]),
+        _tlaps("Deterministic"),
+        _ref("Health", ["MC_HealthIndRef_exact.cfg", "MC_HealthIndRef_loose.cfg"], ["MC_HealthIndRef_exact.cfg", "MC_HealthIndRef_loose.cfg", "MC_HealthIndRef_mc.cfg"], workers=8),
+        _apa("Health", "SafetyPred", ["DeadUntilReportStep"], ["ProbeExact", "ProbeLoose"], jobs=2),
+        _tlaps("Health"),
+        _ref("Metrics", ["MC_MetricsIndRef_atomic.cfg", "MC_MetricsIndRef_sampler.cfg", "MC_MetricsIndRef_fine.cfg"]),
+        _apa("Metrics", "SafetyPred", ["CounterMonotoneStep"], ["ProbeAtomic", "ProbeFine"]),
+        _tlaps("Metrics"),
     ],
 )
